@@ -362,12 +362,206 @@ def extract_flag(ctx, sliced, fired):
     fired['flag'] = rw.fired
 
 
+# ---------------------------------------------------------------------------------------------------------------------------------
+# round 2: global_control bookkeeping, serializer proxy (mandatory concurrency), worker reference word of the arena
+# ---------------------------------------------------------------------------------------------------------------------------------
+GC = 'src/tbb/global_control.cpp'
+GC_H = 'include/oneapi/tbb/global_control.h'
+TC = 'src/tbb/threading_control.cpp'
+GC_CLASSES = ['allowed_parallelism_control', 'stack_size_control', 'terminate_on_exception_control', 'lifetime_control']
+GC_VIRTUALS = ['default_value', 'apply_active', 'is_first_arg_preferred', 'active_value']
+
+
+def scoped_locks_rv(rw, text, decl_pat, rettype, minc=0, maxc=None, lock='LOCK_MUTEX', unlock='UNLOCK_MUTEX'):
+    """Rewriter.scoped_locks for functions that return a value computed from guarded state: `return e;` inside the scope of the lock object becomes
+    `{ T rv_ = (e); unlock; return rv_; }` - e is evaluated while the lock is still held, as in C++ (the destructor runs after the return value exists)."""
+    n = 0
+    while True:
+        m = re.search(decl_pat, text)
+        if not m:
+            break
+        n += 1
+        mu = m.group(1).strip()
+        mk = cxx2c.mask(text)
+        d, i = 0, m.start() - 1
+        while i >= 0:
+            if mk[i] == '}':
+                d += 1
+            elif mk[i] == '{':
+                if d == 0:
+                    break
+                d -= 1
+            i -= 1
+        if i < 0:
+            raise ExtractionBreak('%s: scoped lock outside a block' % rw.name)
+        close = cxx2c.match_close(mk, i)
+        body, bmask = text[m.end():close], mk[m.end():close]
+        out, pos = [], 0
+        for r in re.finditer(r'\breturn\b([^;]*);', bmask):
+            out.append(body[pos:r.start()])
+            e = body[r.start(1):r.end(1)].strip()
+            if e:
+                out.append('{ %s rv_ = (%s); %s(%s); return rv_; }' % (rettype, e, unlock, mu))
+            else:
+                out.append('{ %s(%s); return; }' % (unlock, mu))
+            pos = r.end()
+        out.append(body[pos:])
+        text = text[:m.start()] + '%s(%s);' % (lock, mu) + ''.join(out) + '%s(%s); ' % (unlock, mu) + text[close:]
+    rw._rec('scoped_lock -> %s/%s at scope exit (return value computed before the unlock)' % (lock, unlock), n, minc, maxc)
+    return text
+
+
+def _gc_params(par):
+    out = []
+    for i, p_ in enumerate([x.strip() for x in par.split(',') if x.strip()]):
+        toks = p_.replace('std::size_t', 'size_t').split()
+        if toks[0] != 'size_t' or len(toks) > 2:
+            raise ExtractionBreak('control_storage method parameter %r is not a std::size_t' % p_)
+        out.append('size_t %s' % (toks[1] if len(toks) == 2 else 'unused_%d' % i))
+    return out
+
+
+def _gc_method_body(rw, t, rettype):
+    """rules shared by the control_storage family's member functions"""
+    t = rw.sub(t, r'\bcontrol_storage::apply_active\(', 'control_storage_apply_active(self, ', 0, name='explicit base-class call (behaviour-bearing)')
+    t = rw.sub(t, r'\bthreading_control::set_active_num_workers\(', 'STUB_tc_set_active_num_workers(', 0, name='callee stub (behaviour-bearing): threading_control::set_active_num_workers(unsigned)')
+    t = rw.sub(t, r'\bthreading_control::max_num_workers\(\)', 'STUB_tc_max_num_workers()', 0, name='callee stub: threading_control::max_num_workers')
+    t = rw.sub(t, r'\bthreading_control::register_lifetime_control\(\)', 'STUB_tc_register_lifetime_control()', 0, name='callee stub (behaviour-bearing): threading_control::register_lifetime_control')
+    t = rw.sub(t, r'\bthreading_control::unregister_lifetime_control\(', 'STUB_tc_unregister_lifetime_control(', 0, name='callee stub (behaviour-bearing): threading_control::unregister_lifetime_control')
+    t = rw.sub(t, r'\bgovernor::default_num_threads\(\)', 'STUB_default_num_threads()', 0, name='callee stub: governor::default_num_threads')
+    t = rw.sub(t, r'(?<![\w.>:])max\(', 'tbb_max_unsigned(', 0, name='max<unsigned>')
+    t = rw.sub(t, r'(?<![\w.>:])min\(', 'tbb_min_size_t(', 0, name='min<std::size_t>')
+    t = scoped_locks_rv(rw, t, r'spin_mutex::scoped_lock lock\(([^()]*)\);', rettype)
+    t = rw.sub(t, r'(?<![\w.>])my_list\.empty\(\)', 'SET_EMPTY(self->my_list)', 0, name='std::set::empty -> SET_EMPTY')
+    t = rw.sub(t, r'(?<![\w.>:])default_value\(\)', 'CS_default_value(self)', 0, name='virtual call -> dispatch on the dynamic class')
+    t = rw.sub(t, r'(?<![\w.>])my_active_value\b', 'CS_ACTIVE(self)', 0, name='field my_active_value -> accessor (checks that the list mutex is held)')
+    t = rw.fields(t, ['my_list_mutex', 'my_list'], 0)
+    t = rw.asserts(t, 0)
+    return rw.std(t)
+
+
+def extract_gc(ctx, sliced, fired):
+    """global_control.cpp: control_storage family (virtual functions per class, dispatch harvested from the class texts), control_storage_comparator,
+    global_control_impl::create/destroy/remove_and_check_if_empty/erase_if_present, global_control_active_value; the parameter enum of the public header and the
+    controls[] table built by global_control_acquire."""
+    rw = Rewriter('gcontrol')
+    defs, out = [], []
+    # public enum
+    s = slice_block(GC_H, r'enum parameter\b', within=r'class global_control \{')
+    sliced.append('%s:%d d1::global_control::parameter' % (GC_H, s.line))
+    defs.append(s.text + ';')
+    defs.append('enum { %s };' % ', '.join('KIND_' + c for c in GC_CLASSES))
+    # controls[] table
+    s = slice_block(GC, r'void global_control_acquire\(\)')
+    sliced.append('%s:%d global_control_acquire' % (GC, s.line))
+    tab = re.findall(r'controls\[(\d+)\] = new \(cache_aligned_allocate\(sizeof\((\w+)\)\)\) (\w+)\{\};', s.text)
+    if len(tab) != 4 or any(a != b_ or a not in GC_CLASSES for _, a, b_ in tab) or sorted(int(i) for i, _, _ in tab) != [0, 1, 2, 3]:
+        raise ExtractionBreak('global_control_acquire no longer fills controls[0..3] with the four known storage classes: %r' % (tab,))
+    rw.fired['harvest controls[i] = new <class>'] = len(tab)
+    for i, a, _ in tab:
+        defs.append('#define GC_KIND_AT_%s KIND_%s' % (i, a))
+    # misc.h min/max
+    for nm, ty, cty in (('max', 'unsigned', 'unsigned'), ('min', 'std::size_t', 'size_t')):
+        s = slice_block(MISC, r'T %s \( const T& val1, const T& val2 \)' % nm)
+        sliced.append('%s:%d %s<%s>' % (MISC, s.line, nm, ty))
+        out.append(rw.sub(s.text, r'T %s \( const T& val1, const T& val2 \)' % nm, 'static %s tbb_%s_%s(%s val1, %s val2)' % (cty, nm, cty.replace(' ', '_'), cty, cty), 1, 1, name='sig + bind-template, const& -> value'))
+    # member functions
+    sig = r'(?:virtual\s+)?(std::size_t|void|bool)\s+(%s)\s*\(([^()]*)\)\s*(?:const\s*)?(?:override\s*)?(?=\{)'
+    protos, bodies = [], []
+    have = {}
+    for cls in ['control_storage'] + GC_CLASSES:
+        within = r'class control_storage \{' if cls == 'control_storage' else r'class (?:alignas\(max_nfs_size\) )?%s : public control_storage \{' % cls
+        for meth in GC_VIRTUALS + (['active_value_unsafe'] if cls == 'control_storage' else []):
+            try:
+                s = slice_block(GC, sig % meth, within=within)
+            except ExtractionBreak:
+                continue          # not overridden in this class: the dispatcher falls back to control_storage's
+            m = re.match(sig % meth, s.text)
+            rett = 'size_t' if m.group(1) == 'std::size_t' else m.group(1)
+            t = s.text
+            if cls == 'stack_size_control':
+                t = re.sub(r'(?m)^(\s*#\s*(?:if|elif)\b.*)$', lambda mm: re.sub(r'0x[0-9A-Fa-f]+', lambda h: str(int(h.group(0), 16)), mm.group(1)), t)
+                t = cxx2c.cpp_resolve(t, {'_WIN32_WINNT': None, 'EMSCRIPTEN': None, '__TBB_WIN8UI_SUPPORT': 0}, 'stack_size_control')
+                rw.fired['cpp-resolve(_WIN32_WINNT undefined, EMSCRIPTEN undefined, __TBB_WIN8UI_SUPPORT=0)'] = rw.fired.get('cpp-resolve(_WIN32_WINNT undefined, EMSCRIPTEN undefined, __TBB_WIN8UI_SUPPORT=0)', 0) + 1
+            head = 'static %s %s_%s(%s)' % (rett, cls, meth, ', '.join(['struct cstorage* self'] + _gc_params(m.group(3))))
+            t = head + ' ' + t[t.index('{'):]
+            rw.fired['sig:member-function'] = rw.fired.get('sig:member-function', 0) + 1
+            sliced.append('%s:%d %s::%s' % (GC, s.line, cls, meth))
+            protos.append(head + ';')
+            bodies.append(_gc_method_body(rw, t, rett))
+            have[(cls, meth)] = True
+    for need in (('control_storage', 'apply_active'), ('control_storage', 'is_first_arg_preferred'), ('control_storage', 'active_value'), ('control_storage', 'active_value_unsafe')):
+        if need not in have:
+            raise ExtractionBreak('control_storage::%s not found' % need[1])
+    for cls in GC_CLASSES:
+        if (cls, 'default_value') not in have:
+            raise ExtractionBreak('%s::default_value (pure virtual in the base) not found' % cls)
+    # virtual dispatch, generated from what each class overrides
+    disp = []
+    for meth, rett, par, args in (('default_value', 'size_t', '', ''), ('apply_active', 'void', ', size_t v', ', v'), ('is_first_arg_preferred', 'bool', ', size_t a, size_t b', ', a, b'), ('active_value', 'size_t', '', '')):
+        protos.append('static %s CS_%s(struct cstorage* c%s);' % (rett, meth, par))
+        cases = []
+        for cls in GC_CLASSES:
+            impl = cls if (cls, meth) in have else 'control_storage'
+            cases.append('    if (c->kind == KIND_%s) { %s%s_%s(c%s); %s}' % (cls, '' if rett == 'void' else 'return ', impl, meth, args, 'return; ' if rett == 'void' else ''))
+        disp.append('static %s CS_%s(struct cstorage* c%s) {\n%s\n    __CPROVER_assert(0, "C16.gcontrol: a control storage has one of the four known dynamic classes");%s\n}' % (
+            rett, meth, par, '\n'.join(cases), '' if rett == 'void' else ' return 0;'))
+    common.write(ctx, 'gc_defs.inc', '\n'.join(defs) + '\n')
+    # comparator
+    s = slice_block(GC, r'inline bool control_storage_comparator::operator\(\)\(const d1::global_control\* lhs, const d1::global_control\* rhs\) const')
+    sliced.append('%s:%d control_storage_comparator::operator()' % (GC, s.line))
+    t = rw.sub(s.text, r'inline bool control_storage_comparator::operator\(\)\(const d1::global_control\* lhs, const d1::global_control\* rhs\) const',
+               'static bool gc_less(const struct gcontrol* lhs, const struct gcontrol* rhs)', 1, 1, name='sig')
+    t = rw.sub(t, r'\bd1::global_control::', '', 0, name='ns-strip')
+    t = rw.sub(t, r'\blhs < rhs\b', 'PTR_LT(lhs, rhs)', 0, name='address tie-break lhs < rhs -> PTR_LT (addresses compared as integers)')
+    t = rw.sub(t, r'\bcontrols\[lhs->my_param\]->is_first_arg_preferred\(', 'CS_is_first_arg_preferred(controls[lhs->my_param], ', 0, name='virtual call -> dispatch on the dynamic class')
+    t = rw.asserts(t, 0, macro='__TBB_ASSERT_RELEASE')
+    comparator = rw.std(t)
+    # global_control_impl
+    impl = []
+    for nm, sg, csig, rett in (('erase_if_present', r'static bool erase_if_present\(control_storage\* const c, d1::global_control& gc\)', 'static bool gci_erase_if_present(struct cstorage* const c, struct gcontrol* gc)', 'bool'),
+                               ('create', r'static void create\(d1::global_control& gc\)', 'void gci_create(struct gcontrol* gc)', 'void'),
+                               ('destroy', r'static void destroy\(d1::global_control& gc\)', 'void gci_destroy(struct gcontrol* gc)', 'void'),
+                               ('remove_and_check_if_empty', r'static bool remove_and_check_if_empty\(d1::global_control& gc\)', 'bool gci_remove_and_check_if_empty(struct gcontrol* gc)', 'bool')):
+        s = slice_block(GC, sg, within=r'struct global_control_impl \{')
+        sliced.append('%s:%d global_control_impl::%s' % (GC, s.line, nm))
+        t = rw.sub(s.text, sg, csig, 1, 1, name='sig')
+        t = rw.sub(t, r'&gc\b', 'gc', 0, name='address of a reference parameter -> the pointer')
+        t = rw.sub(t, r'\bgc\.', 'gc->', 0, name='ref-param')
+        t = rw.sub(t, r'\bd1::global_control::', '', 0, name='ns-strip')
+        t = rw.sub(t, r'\bcontrol_storage\* const c = ', 'struct cstorage* const c = ', 0 if nm == 'erase_if_present' else 1, name='type')
+        t = scoped_locks_rv(rw, t, r'spin_mutex::scoped_lock lock\(([^()]*)\);', rett)
+        t = rw.sub(t, r'\(\*c->my_list\.begin\(\)\)', 'SET_DEREF(SET_BEGIN(c->my_list))', 0, name='std::set::begin + dereference -> SET_BEGIN/SET_DEREF')
+        t = rw.sub(t, r'\bc->my_list\.empty\(\)', 'SET_EMPTY(c->my_list)', 0, name='std::set::empty -> SET_EMPTY')
+        t = rw.sub(t, r'\bc->my_list\.insert\(', 'SET_INSERT(c->my_list, ', 0, name='std::set::insert -> SET_INSERT (behaviour-bearing)')
+        t = rw.sub(t, r'\bauto it = c->my_list\.find\(', 'set_iter it = SET_FIND(c->my_list, ', 0, name='std::set::find -> SET_FIND')
+        t = rw.sub(t, r'\bc->my_list\.end\(\)', 'SET_END(c->my_list)', 0, name='std::set::end -> SET_END')
+        t = rw.sub(t, r'\bc->my_list\.erase\(', 'SET_ERASE(c->my_list, ', 0, name='std::set::erase -> SET_ERASE (behaviour-bearing)')
+        t = rw.sub(t, r'\bc->(is_first_arg_preferred|apply_active)\(', r'CS_\1(c, ', 0, name='virtual call -> dispatch on the dynamic class')
+        t = rw.sub(t, r'\bc->default_value\(\)', 'CS_default_value(c)', 0, name='virtual call -> dispatch on the dynamic class')
+        t = rw.sub(t, r'\bc->my_active_value\b', 'CS_ACTIVE(c)', 0, name='field my_active_value -> accessor (checks that the list mutex is held)')
+        t = rw.sub(t, r'(?<![\w.>:])erase_if_present\(', 'gci_erase_if_present(', 0, name='method (static)')
+        t = rw.asserts(t, 0, macro='__TBB_ASSERT_RELEASE')
+        t = rw.asserts(t, 0)
+        impl.append(rw.std(t))
+    s = slice_block(GC, r'std::size_t __TBB_EXPORTED_FUNC global_control_active_value\(int param\)')
+    sliced.append('%s:%d global_control_active_value' % (GC, s.line))
+    t = rw.sub(s.text, r'std::size_t __TBB_EXPORTED_FUNC global_control_active_value\(int param\)', 'size_t global_control_active_value(int param)', 1, 1, name='sig')
+    t = rw.sub(t, r'\bd1::global_control::', '', 0, name='ns-strip')
+    t = rw.sub(t, r'\bcontrols\[param\]->active_value\(\)', 'CS_active_value(controls[param])', 0, name='virtual call -> dispatch on the dynamic class')
+    t = rw.asserts(t, 0, macro='__TBB_ASSERT_RELEASE')
+    impl.append(rw.std(t))
+    common.write(ctx, 'gcontrol.inc', '\n'.join(out + protos + [comparator] + bodies + disp + impl) + '\n')
+    fired['gcontrol'] = rw.fired
+
+
 def build(ctx):
     sliced, fired = extract(ctx)
     extract_flag(ctx, sliced, fired)
     extract_trs(ctx, sliced, fired)
     extract_allot(ctx, sliced, fired)
     extract_req(ctx, sliced, fired)
+    extract_gc(ctx, sliced, fired)
     C = os.path.join(HERE, 'c16.c')
     vmax = 15 if getattr(ctx, 'tier', 'quick') == 'thorough' else 7
     jobs = [
@@ -398,6 +592,16 @@ def build(ctx):
         Job('serializer.set_active_num_workers', C, 'h_trs_set_active', route='RG', defines=['TRSQ'], target='thread_request_serializer::set_active_num_workers', source=TRS, inputs=['IN_soft']),
         Job('slots.occupy_free_slot', C, 'h_occupy', route='LC', loops=True, defines=['SLOTS'], target='arena::occupy_free_slot<as_worker> (modular over the loops\' contracts)', source=AR, timeout=600),
     ]
+    gk = [('parallelism', 'allowed_parallelism_control'), ('stack_size', 'stack_size_control'), ('terminate', 'terminate_on_exception_control'), ('handle', 'lifetime_control')]
+    gin = ['IN_kind', 'IN_v0', 'IN_v1', 'IN_v2', 'IN_v3', 'IN_active']
+    jobs.append(Job('gcontrol.table', C, 'h_gc_table', route='LF', defines=['GC'], target='controls[] table (global_control_acquire) against d1::global_control::parameter; is_first_arg_preferred of every storage class', source=GC))
+    for short, cls in gk:
+        d = ['GC', 'GC_KIND=KIND_' + cls]
+        jobs.append(Job('gcontrol.comparator.' + short, C, 'h_gc_comparator', route='LF', defines=d, target='control_storage_comparator::operator() on the list of ' + cls, source=GC, inputs=gin))
+        jobs.append(Job('gcontrol.create.' + short, C, 'h_gc_create', route='LF', defines=d, target='global_control_impl::create (+ %s virtuals, control_storage::apply_active)' % cls, source=GC, inputs=gin))
+        jobs.append(Job('gcontrol.destroy.' + short, C, 'h_gc_destroy', route='LF', defines=d, target='global_control_impl::destroy, erase_if_present (+ %s virtuals)' % cls, source=GC, inputs=gin))
+        jobs.append(Job('gcontrol.active_value.' + short, C, 'h_gc_active_value', route='LF', defines=d, target='global_control_active_value -> %s::active_value / default_value' % cls, source=GC, inputs=gin, twin=(short == 'parallelism')))
+    jobs.append(Job('gcontrol.remove_and_check.handle', C, 'h_gc_remove', route='LF', defines=['GC', 'GC_KIND=KIND_lifetime_control'], target='global_control_impl::remove_and_check_if_empty (scheduler handles)', source=GC, inputs=gin))
     return {
         'jobs': jobs, 'sliced': sliced, 'fired': fired,
         'trusted': ['arena::get_critical_task, r1::spawn (stamps the spawned task with the dispatcher\'s current isolation), observers: stubs', 'FastRandom::get(): arbitrary value', 'SC atomics; my_is_occupied is only written by try_occupy/release',
@@ -433,7 +637,28 @@ def build(ctx):
     }
 
 
+def replay_gc(ctx, jobname, failure):
+    """gcontrol.*: public-API scenario on a libtbb built from the current tree (c16_replay_gc.cpp)"""
+    short = jobname.split('.')[-1]
+    if short not in ('parallelism', 'stack_size', 'terminate'):
+        return {'reproduced': False, 'detail': 'no native recipe: the scheduler-handle list / the controls[] table have no value observable through the public API'}
+    exe = native.build([os.path.join(HERE, 'c16_replay_gc.cpp')], os.path.join(ctx.work, 'c16_replay_gc_' + short), link_tbb=True)
+    ins = failure.get('inputs') or {}
+    cmd = [exe, short] + [str(ins.get(k, 0) or 0) for k in ('IN_v0', 'IN_v1', 'IN_v2', 'IN_v3')]
+    rc, out = native.run(cmd, timeout=120)
+    rep = {'cmd': ' '.join(cmd), 'rc': rc, 'output': out[-1500:], 'reproduced': False, 'detail': 'native recipe found no failing scenario'}
+    m = re.search(r'^REPRODUCED (.*)', out, re.M)
+    if m:
+        rep['reproduced'] = True
+        rep['detail'] = m.group(1)
+        w = re.search(r'class=(\S+)', m.group(1))
+        rep['witness_class'] = w.group(1) if w else None
+    return rep
+
+
 def replay(ctx, jobname, failure):
+    if jobname.startswith('gcontrol.'):
+        return replay_gc(ctx, jobname, failure)
     if jobname != 'serializer.update.wide' and not jobname.startswith('allot.update_allotment'):
         return {'reproduced': False, 'detail': 'no native recipe: get_critical_task / slot occupation / the flag protocol need a running arena with a forced interleaving; '
                                                'see seeded/C16-1/demo.cpp for a public-API scenario'}
